@@ -152,6 +152,32 @@ Proof.
     eapply (GoodW_R MNeutral); [apply R_sched_finish|exact G1].
 Qed.
 
+(** a device constructed while the simulation is in progress *)
+Lemma AllInv_live x : AllInv x -> AllInv (t_live x).
+Proof. unfold AllInv, SlotInv, BufInv, ValInv, BatchInv, AcctInv, EndValInv, t_live. cbn. tauto. Qed.
+
+Lemma late_create_good fuel nw w d ups : GoodW w -> GoodW (late_create fuel nw w d ups).
+Proof.
+  intro G. unfold late_create. set (x := getd w d).
+  match goal with |- GoodW (if ?c then _ else _) => destruct c eqn:GD end.
+  - apply (GoodW_R MNeutral nw w _ (R_fail nw MNeutral w E_ASSERT) G).
+  - apply orb_false_iff in GD. destruct GD as [GD _]. apply orb_false_iff in GD. destruct GD as [GD AM].
+    apply orb_false_iff in GD. destruct GD as [GD _]. apply orb_false_iff in GD. destruct GD as [_ PR].
+    apply negb_false_iff in PR. apply negb_false_iff in AM.
+    set (w0 := w <| f_next_id := f_next_id w + 1 |>).
+    assert (G0 : GoodW w0) by (apply (GoodW_same w); [reflexivity|reflexivity|exact G]).
+    set (w1 := updd w0 d t_live).
+    assert (G1 : GoodW w1).
+    { destruct G0 as [A B]. split; [|apply HoldW_updd; [intro y; split; reflexivity|exact B]].
+      intros d' y Hy. unfold w1, updd, setd in Hy. cbn in Hy. apply aget_arepl_some in Hy.
+      destruct Hy as [[-> [-> M]]|Hy]; [|apply (A d' y Hy)].
+      apply amem_some in M. destruct M as [z Hz]. change (getd w0 d) with (getd w d). rewrite (getd_some w d z Hz). apply AllInv_live, (A d z Hz). }
+    eapply (GoodW_R MNeutral); [apply R_rewire|]. apply init_dev_good; [exact G1|].
+    intros y Hy _. unfold w1, updd, setd in Hy. cbn in Hy. rewrite aget_arepl, Z.eqb_refl in Hy. cbn in Hy.
+    change (amem d (f_devs w0)) with (amem d (f_devs w)) in Hy. rewrite AM in Hy. injection Hy as <-.
+    change (getd w0 d) with x. unfold t_live. cbn. destruct (pristine_facts x PR) as [_ [_ [_ [_ [_ [SH _]]]]]]. exact SH.
+Qed.
+
 (** initialisation shuts nothing down *)
 Lemma sched_pass_shut nw off w d d' : d_shut (getd (sched_pass nw off w d) d') = d_shut (getd w d').
 Proof.
@@ -189,7 +215,7 @@ Proof.
   intros G NS. unfold init_world. set (w1 := rm_call w (rm_initialize nw)).
   assert (G1 : GoodW w1) by (eapply (GoodW_R MNeutral); [apply (R_rm_quiet nw MNeutral), rm_initialize_quiet|exact G]).
   assert (NS1 : NoShut w1) by (intro d; unfold w1; rewrite (getd_other_fields w _ d (proj1 (rm_call_devs w _))); apply NS).
-  generalize (map fst (f_devs w1)). intro l. revert G1 NS1. generalize w1. clear.
+  generalize (filter (fun d => d_live (getd w1 d)) (map fst (f_devs w1))). intro l. revert G1 NS1. generalize w1. clear.
   induction l as [|d l IH]; intros w G NS; cbn; [exact G|].
   apply IH.
   - apply init_dev_good; [exact G|]. intros x Hx _. rewrite <- (getd_some w d x Hx). apply NS.
@@ -258,6 +284,7 @@ Proof.
     + exact G.
   - destruct (apply_cmd ws (snd s) (CSched t prio (-5) (AUser k))); cbn; exact G.
   - apply FIN. eapply (GoodW_R MNeutral); [apply R_run_uop|exact G].
+  - apply FIN. apply late_create_good, G.
 Qed.
 
 (** the states a scenario can reach: initialisation of a well-formed world, then any operations *)
@@ -287,6 +314,7 @@ Section Closure.
   Hypothesis Inv_exec : forall nw fuel uops a w, Inv w -> Inv (exec_fact fuel uops a w nw).
   Hypothesis Inv_uop : forall fuel nw w o, Inv w -> Inv (run_uop fuel nw w o).
   Hypothesis Inv_init : forall fuel nw w, wf_worldb w = true -> Inv (init_world fuel nw w).
+  Hypothesis Inv_late : forall fuel nw w d ups, Inv w -> Inv (late_create fuel nw w d ups).
 
   Lemma step_Inv sc ws s r : Inv (fst s) -> step ws (exec_fl sc) fl_wfail s = Some r -> Inv (fst (res_val r)).
   Proof.
@@ -339,6 +367,7 @@ Section Closure.
       + cbn [fst]. apply (Inv_same (fst s)); [reflexivity|reflexivity|exact G].
     - destruct (apply_cmd ws (snd s) (CSched t prio (-5) (AUser k))); cbn; exact G.
     - apply FIN. apply Inv_uop, G.
+    - apply FIN. apply Inv_late, G.
   Qed.
 
   Theorem reach_Inv sc s : reach_fl sc s -> Inv (fst s).
